@@ -242,6 +242,8 @@ def run(ctx):
     from .C01 import children_are_direct
     children_are_direct(ctx)
     kernel_kill_counts_only_a_populated_victim(ctx, "C03")
+    # a kill that failed is seen to have failed (else there is no falling back to the next candidate)
+    failure_tests_see_the_sign(ctx, "C03", ["Oomd::BaseKillPlugin::tryToKillCgroup", "Oomd::BaseKillPlugin::tryToKillPids"])
     # locals / parameters the rules below refer to by name (a rename makes the analysis 'broken', never a violation)
     ctx.anchor(ctx.fn1('Oomd::BaseKillPlugin::resumeTryingToKillSomething'), 'candidate', 'nextBestOptionStack', 'sorted')
     ctx.anchor(ctx.fn1('Oomd::BaseKillPlugin::tryToKillSomething'), 'sorted', 'nextBestOptionStack')
